@@ -51,6 +51,16 @@ class C14(XsProp):
             case = 'xs limits 2000 - - | eval %s | limits 2000 %d - | eval %s | dump' % (hexsrc(pre) if pre else hexsrc('depth drop'), S, hexsrc(block))
             cs.append(case)
             self.meta_expect[case] = (k, S, m)
+        # resume: a program stopped by the instruction limit, the limit raised, the machine resumed with run / single steps, must end
+        # exactly as the same program on an unlimited copy (stack, variables, output): nothing is executed twice, nothing skipped
+        resumable = ['0 var x : sq dup * ; 3 0 do I sq x + ! x loop x "a" print', '[ 10 20 30 ] foreach I loop 7 "z" print',
+                     '1 2 over rot swap drop + 5 case 5 of 1 endof 2 endcase', ': f local a a 1 + local a a ; 4 f 0 begin 1 + dup 3 > until',
+                     '5 0 do I print loop 9', '0 var c 6 0 do c 1 + ! c loop c c', ': r local n n 0 > if n 1 - r then n ; 4 r']
+        for p in resumable:
+            for N in list(range(1, 40, 2 if tier == 'quick' else 1)):
+                for how in ('run', 'stepall'):
+                    cs.append('xs limits 100000 - - | clone | eval %s | stack | out | use 1 | limits %d - - | eval %s | out | limits 100000 - - | %s | stack | out | dump'
+                              % (hexsrc(p), N, hexsrc(p), how) + ' | use 0 | dump')
         # limits changed between evaluations on one interpreter
         for i in range(n // 5):
             a, b = rng.choice(progs_), rng.choice(progs_)
@@ -110,6 +120,24 @@ class C14(XsProp):
                 if outs[-2] != 'ok' and 'ELimit' in outs[-2]:
                     fails.append(('case: %s\nresult: %s' % (c, o[:1500]), 'still failing with a limit error after the limits were raised'))
         for c, o in zip(cases, impl):
+            if c.startswith('xs limits 100000 - - | clone | eval '):
+                ou = o.split(' | ')
+                if len(ou) != 15 or 'PANIC' in o:
+                    continue
+                n += 1
+                ref_res, ref_stack, ref_out = ou[2], ou[3], ou[4]
+                lim_res, out1, res2, stack2, out2 = ou[7], ou[8], ou[10], ou[11], ou[12]
+                if ref_res != 'ok' or not (lim_res == 'ok' or lim_res.startswith('ELimit')):
+                    continue
+                hit += lim_res != 'ok'
+                got_out = 'out:' + out1[4:].replace('-', '') + out2[4:].replace('-', '')
+                want_out = 'out:' + ref_out[4:].replace('-', '')
+                heap = lambda d: field(d, 'heap')
+                if res2 != 'ok' or stack2 != ref_stack or got_out != want_out or heap(ou[13]) != heap(ou[14]):
+                    fails.append(('case: %s\nunlimited: %s %s %s\nstopped-and-resumed: %s then %s %s %s' % (
+                        c, ref_res, ref_stack, want_out, lim_res, res2, stack2, got_out),
+                        'a program stopped by the instruction limit and resumed after raising it does not end like the unlimited run'))
+                continue
             if c in getattr(self, 'meta_expect', {}):
                 k, S, m = self.meta_expect[c]
                 ou = o.split(' | ')
